@@ -80,7 +80,7 @@ class Run:
         self.binary = out
         return out
 
-    def harness(self, driver, out, extra=(), timeout=1800, env=None):
+    def harness(self, driver, out, extra=(), timeout=1800, env=None, allow_empty=False):
         """Run one harness driver; returns number of records written."""
         b = self.build()
         cmd = [b, driver, "-seed", str(self.seed), "-tier", self.tier, "-out", out] + list(extra)
@@ -117,7 +117,29 @@ class Run:
             raise Infra("harness driver %s printed no summary: %s" % (driver, r.stdout[-500:]))
         info["wall_s"] = round(time.time() - t, 2)
         self.cov["drivers"].append(info)
-        if info.get("records", 0) == 0:
+        if info.get("records", 0) == 0 and not allow_empty:
+            raise Infra("dead driver: %s produced no records" % driver)
+        return info
+
+    def harness_sharded(self, driver, out, extra=(), shards=8, timeout=3000, env=None):
+        """Run a driver whose cases are independent per index (system driver: one random stream per scenario) as `shards`
+        parallel processes (-shard k/N) and concatenate their traces."""
+        from concurrent.futures import ThreadPoolExecutor
+        self.build()
+        parts = ["%s.part%d" % (out, k) for k in range(shards)]
+        with ThreadPoolExecutor(max_workers=shards) as ex:
+            infos = list(ex.map(lambda k: self.harness(driver, parts[k], extra=list(extra) + ["-shard", "%d/%d" % (k, shards)],
+                                                       timeout=timeout, env=env, allow_empty=True), range(shards)))
+        with open(out, "w") as o:
+            for p in parts:
+                with open(p) as f:
+                    shutil.copyfileobj(f, o)
+                os.remove(p)
+        info = dict(driver=driver, records=sum(i.get("records", 0) for i in infos),
+                    distinct_nontrivial=sum(i.get("distinct_nontrivial", 0) for i in infos), shards=shards,
+                    wall_s=max(i.get("wall_s", 0) for i in infos))
+        self.cov["drivers"] = [d for d in self.cov["drivers"] if d not in infos] + [info]
+        if info["records"] == 0:
             raise Infra("dead driver: %s produced no records" % driver)
         return info
 
